@@ -45,14 +45,13 @@ fn lint_by_ref_arg(
         ResolvedParamType::UserDefined(user_defined_type_name) => lint_arg_pos(arg_pos, |e| {
             expr_type_is_user_defined(e, user_defined_type_name)
         }),
-        ResolvedParamType::Array(boxed_element_type) => {
+        ResolvedParamType::Array(_) => {
             // we can only pass an array by using the array name followed by parenthesis e.g. `Menu choice$()`
+            // and the type of its elements must be the type of the elements of the parameter
             match &arg_pos.element {
-                Expression::ArrayElement(name, args, expression_type) => {
-                    if args.is_empty() {
-                        let dummy_expr =
-                            Expression::Variable(name.clone(), expression_type.clone()).at(arg_pos);
-                        lint_by_ref_arg(&dummy_expr, boxed_element_type.as_ref())
+                Expression::ArrayElement(_, args, _) => {
+                    if args.is_empty() && arg_pos.expression_type().can_cast_to(param_type) {
+                        Ok(())
                     } else {
                         Err(LintError::ArgumentTypeMismatch.at(arg_pos))
                     }
